@@ -6,6 +6,7 @@ import (
 	"time"
 
 	"github.com/0xReLogic/Helios/internal/logging"
+	"github.com/0xReLogic/Helios/internal/vhook"
 )
 
 // WebSocketPool manages a pool of WebSocket connections for connection reuse
@@ -58,6 +59,7 @@ func (p *WebSocketPool) Get(backend string) net.Conn {
 		return nil
 	}
 
+	vhook.Yield("ws.get.gap")
 	pool.mu.Lock()
 	defer pool.mu.Unlock()
 
@@ -97,6 +99,7 @@ func (p *WebSocketPool) Put(backend string, conn net.Conn) bool {
 	}
 	p.mu.Unlock()
 
+	vhook.Yield("ws.put.gap")
 	pool.mu.Lock()
 	defer pool.mu.Unlock()
 
@@ -133,6 +136,7 @@ func (p *WebSocketPool) Close(backend string, conn net.Conn) {
 		return
 	}
 
+	vhook.Yield("ws.close.gap")
 	pool.mu.Lock()
 	if pool.active > 0 {
 		pool.active--
@@ -199,6 +203,7 @@ func (p *WebSocketPool) cleanupBackend(backend string) {
 		return
 	}
 
+	vhook.Yield("ws.cleanup.gap")
 	pool.mu.Lock()
 	validConns := make([]pooledConn, 0, len(pool.idle))
 	closedCount := 0
@@ -226,6 +231,7 @@ func (p *WebSocketPool) cleanupBackend(backend string) {
 
 // Shutdown closes all connections in all pools
 func (p *WebSocketPool) Shutdown() {
+	vhook.Yield("ws.shutdown.enter")
 	p.mu.Lock()
 	defer p.mu.Unlock()
 
